@@ -11,6 +11,9 @@ use std::collections::HashMap;
 pub struct Concretiser {
     pub sig_cache: HashMap<String, Vec<u8>>,
     pub payloads: HashMap<String, Vec<u8>>,
+    /// the number on the wire for the spec's root key id hint 1 ("a hint is present"): 1, or 0 - an id that is
+    /// present and happens to be zero is not an absent id
+    pub hint: u32,
 }
 
 fn le32(x: u64) -> [u8; 4] {
@@ -22,6 +25,7 @@ impl Concretiser {
         Concretiser {
             sig_cache: HashMap::new(),
             payloads,
+            hint: 1,
         }
     }
 
